@@ -410,6 +410,8 @@ def finish(ctx, mod):
         "known_findings_seen": sorted(seen_known),
         "notes": ctx.notes,
     }
+    if ctx.discharged == 0:
+        del cov["discharged"]      # nothing was discharged: the schema's generic counts apply instead
     cov.update(ctx.extra)
     ev = {
         "property_id": ctx.prop, "tier": ctx.tier, "seed": ctx.seed, "level": "proof",
